@@ -61,7 +61,7 @@ Definition build_opus_head (version channels pre_skip rate gain family : Z) (tab
 (* CODE: OggOpusInfo.__init__ + _post_tags.  result: [channels; length numerator; length denominator] *)
 Definition decode_opus_head (pkt : list Z) (granule : Z) : result (list Z) :=
   let d := sub_at 8 11 pkt in
-  if negb (zlen d =? 11) then Raise EStruct
+  if negb (zlen d =? 11) then Raise EMutagen                      (* struct.error -> OggOpusHeaderError *)
   else
     let version := byte_at 0 d in
     let channels := byte_at 1 d in
@@ -79,13 +79,12 @@ Definition build_speex_header (vstring : list Z) (rate mode channels bitrate fra
 
 (* CODE: OggSpeexInfo.__init__ + _post_tags.  result: [sample_rate; channels; bitrate; granule; sample_rate] *)
 Definition decode_speex_header (pkt : list Z) (granule : Z) : result (list Z) :=
-  if negb (zlen (sub_at 36 4 pkt) =? 4) || negb (zlen (sub_at 48 4 pkt) =? 4) || negb (zlen (sub_at 52 4 pkt) =? 4)
-  then Raise EStruct                                                   (* cdata.error *)
+  if zlen pkt <? 56 then Raise EMutagen                               (* header packet too short *)
   else
     let sample_rate := le_at 36 4 pkt in
     let channels := le_at 48 4 pkt in
     let bitrate := Z.max 0 (to_signed 4294967296 (le_at 52 4 pkt)) in
-    if sample_rate =? 0 then Raise EZeroDiv
+    if sample_rate =? 0 then Raise EMutagen                            (* sample rate can't be zero *)
     else Ok [sample_rate; channels; bitrate; granule; sample_rate].
 
 (* ================================================================== Theora *)
@@ -123,7 +122,7 @@ Definition build_oggflac_id (header_packets : Z) (p : flac_p) : list Z :=
             length numerator; length denominator; header packets] *)
 Definition decode_oggflac_id (pkt : list Z) (granule : Z) : result (list Z) :=
   let d := sub_at 5 8 pkt in
-  if negb (zlen d =? 8) then Raise EStruct
+  if negb (zlen d =? 8) then Raise EMutagen                       (* struct.error -> OggFLACHeaderError *)
   else
     let major := byte_at 0 d in
     let minor := byte_at 1 d in
